@@ -184,7 +184,10 @@ class bicgstab {
             backend::copy(*r, *rh);
 
             scalar_type eps = std::max(norm_rhs * prm.tol, prm.abstol);
-            scalar_type res = prm.check_after ? 2 * eps : norm(*r);
+            scalar_type res = norm(*r);
+
+            // check_after: do at least one iteration, unless there is nothing to iterate on
+            bool force = prm.check_after && !math::is_zero(res);
 
             coef_type rho1  = zero;
             coef_type rho2  = zero;
@@ -192,7 +195,7 @@ class bicgstab {
             coef_type omega = zero;
 
             size_t iter = 0;
-            for(bool first = true; res > eps && iter < prm.maxiter; ++iter) {
+            for(bool first = true; (res > eps || (first && force)) && iter < prm.maxiter; ++iter) {
 
                 rho2 = rho1;
                 rho1 = inner_product(*r, *rh);
